@@ -5,6 +5,7 @@ import (
 	"runtime"
 	"strings"
 	"sync"
+	"sync/atomic"
 	"time"
 
 	"gopkg.in/typ.v4/chans"
@@ -101,6 +102,15 @@ func (w *psWorld) drainNow() {
 func drivePubSub(plan []M, out *Out, _ []string) {
 	for si, sc := range plan {
 		out.Journal(M{"ev": "begin", "plan": si})
+		if b := str(sc, "burst"); b != "" {
+			out.Emit(M{"ev": "reset", "plan": si, "timeout": b == "slot"})
+			if b == "unsub" {
+				psUnsubBurst(sc, out)
+			} else {
+				psSlotBurst(sc, out)
+			}
+			continue
+		}
 		w := &psWorld{out: out, subs: map[int]<-chan int{}, ret: map[int]chan struct{}{}, tmo: boolean(sc, "timeout"), clones: map[int]*chans.PubSub[int]{}}
 		w.ps = &chans.PubSub[int]{}
 		if w.tmo {
@@ -263,4 +273,106 @@ func drivePubSub(plan []M, out *Out, _ []string) {
 		// release goroutines still parked on channels nobody will read: unsubscribe everything, drain
 		w.ps.UnsubAll()
 	}
+}
+
+// psUnsubBurst: rounds of simultaneous Unsub calls, nothing controlled: n subscribers (buffer 1), dup goroutines per channel
+// released together.  Per channel exactly one Unsub returns nil and the others ErrAlreadyUnsubscribed; afterwards a PubSync reaches
+// nobody and every channel is closed and empty.  One summary line per batch (plus the first bad round).
+func psUnsubBurst(sc M, out *Out) {
+	n, dup, rounds := num(sc, "n"), num(sc, "dup"), num(sc, "rounds")
+	bad, first := 0, M{}
+	for r := 0; r < rounds && bad == 0; r++ {
+		ps := &chans.PubSub[int]{}
+		subs := make([]<-chan int, n)
+		for i := range subs {
+			subs[i] = ps.SubBuf(1)
+		}
+		nils := make([]int32, n)
+		other := int32(0)
+		var wg sync.WaitGroup
+		start := make(chan struct{})
+		for i := 0; i < n; i++ {
+			for d := 0; d < dup; d++ {
+				wg.Add(1)
+				go func(i int) {
+					defer wg.Done()
+					<-start
+					err := ps.Unsub(subs[i])
+					if err == nil {
+						atomic.AddInt32(&nils[i], 1)
+					} else if err != chans.ErrAlreadyUnsubscribed {
+						atomic.AddInt32(&other, 1)
+					}
+				}(i)
+			}
+		}
+		close(start)
+		wg.Wait()
+		ps.PubSync(42)
+		once, closed, got := 0, 0, 0
+		for i, ch := range subs {
+			if nils[i] == 1 {
+				once++
+			}
+			select {
+			case _, ok := <-ch:
+				if ok {
+					got++
+				} else {
+					closed++
+				}
+			default:
+			}
+		}
+		if once != n || closed != n || got != 0 || other != 0 {
+			bad++
+			first = M{"round": r, "once": once, "closed": closed, "got": got, "other": int(other)}
+			ps.UnsubAll()
+		}
+	}
+	out.Emit(M{"ev": "uburst", "n": n, "dup": dup, "rounds": rounds, "bad": bad, "first": first})
+}
+
+// psSlotBurst: rounds with a positive PubTimeoutAfter, one subscriber with buffer buf that nobody receives from, and pubs
+// simultaneous publishers (PubSync, or PubWait when wait is set).  Every call returns; deliveries (what sits in the buffer) plus
+// OnPubTimeout calls = pubs, deliveries <= buf.  Stops at the first bad round (a stuck publisher keeps the read lock).
+func psSlotBurst(sc M, out *Out) {
+	pubs, buf, rounds, wait := num(sc, "pubs"), num(sc, "buf"), num(sc, "rounds"), boolean(sc, "wait")
+	bad, first := 0, M{}
+	for r := 0; r < rounds && bad == 0; r++ {
+		var tmo int32
+		ps := &chans.PubSub[int]{PubTimeoutAfter: 200 * time.Microsecond, OnPubTimeout: func(int) { atomic.AddInt32(&tmo, 1) }}
+		ch := ps.SubBuf(buf)
+		var ret int32
+		start := make(chan struct{})
+		done := make(chan struct{}, pubs)
+		for p := 0; p < pubs; p++ {
+			go func(p int) {
+				<-start
+				if wait {
+					ps.PubWait(p)
+				} else {
+					ps.PubSync(p)
+				}
+				atomic.AddInt32(&ret, 1)
+				done <- struct{}{}
+			}(p)
+		}
+		close(start)
+		dl := time.After(2 * time.Second)
+	wait:
+		for i := 0; i < pubs; i++ {
+			select {
+			case <-done:
+			case <-dl:
+				break wait
+			}
+		}
+		deliv := len(ch)
+		if int(atomic.LoadInt32(&ret)) != pubs || deliv+int(atomic.LoadInt32(&tmo)) != pubs || deliv > buf {
+			bad++
+			first = M{"round": r, "returned": int(ret), "delivered": deliv, "timeouts": int(tmo)}
+		}
+	}
+	out.Emit(M{"ev": "sburst", "pubs": pubs, "buf": buf, "rounds": rounds, "bad": bad, "first": first})
 }
